@@ -155,7 +155,7 @@ def rand_program(rng):
                     body.append(pp.bt("lit", rng.choice(WORDS[:4])))
                 prev_plain = True
             elif r < 0.75:
-                body.append(pp.bt("str", '"f0 %s"' % rng.choice(WORDS))); prev_plain = False
+                body.append(pp.bt("str", rng.choice(['"f0 %s"', '"f0 // %s"', '"/* f0 */ %s"', '"`M0 `` %s"', '"http://f0/%s"']) % rng.choice(WORDS))); prev_plain = False
             elif r < 0.85 and macros and not after_str:
                 # (never directly after a string literal: known finding D2, decided by PpLex/C06)
                 body.append(rand_use_bt(rng, rng.choice(macros), 1, macros)); prev_plain = False
